@@ -52,6 +52,7 @@ PROPERTY_RULES: Dict[str, List[Scoped]] = {
         _r("DERIVED-QUERIES"), _r("OPTIONAL-CHECKED", S_THL), _r("RESULT-UNCONDITIONAL", S_THL),
         _r("ENUM-PLACEMENTS"),
         _r("COST-GUARD", S_THL), _r("CANDIDATE-GUARDS", S_THL), _r("ENUM-NO-TRUNCATION", ("compute.exhaustive:", "compute.reconciliation:")), _r("HASH-IDENTITY", S_COMPUTE + S_MODEL),
+        _r("MODEL-TABLE"), _r("LABEL-SIBLINGS"), _r("CONSERVED-SIDE"),
     ],
     "C02": [
         _r("SENTINEL", S_SPFS, S_SUBSEQ), _r("COSTKEYS", S_SPFS), _r("PRUNE", S_SPFS), _r("EVENT-SIG", S_SPFS),
@@ -65,6 +66,7 @@ PROPERTY_RULES: Dict[str, List[Scoped]] = {
         _r("EVENT-TABLE"), _r("ROOT-ORDER-SOURCE"), _r("COST-GUARD", S_SPFS), _r("CANDIDATE-GUARDS", S_SPFS), _r("OUTPUT-FLAG", S_SPFS),
         _r("STALE-INPUT", S_SPFS), _r("MASK-RANGE"), _r("SEGMENT-MACHINE"), _r("BIT-ORDER"),
         _r("ENUM-NO-TRUNCATION", S_SPFS),
+        _r("MODEL-TABLE"), _r("LABEL-SIBLINGS"), _r("CONSERVED-SIDE"),
     ],
     "C03": [
         _r("READONLY-DECODE", S_USPFS), _r("COSTKEYS", S_USPFS), _r("PRUNE", S_USPFS), _r("EVENT-SIG", S_USPFS),
@@ -78,6 +80,7 @@ PROPERTY_RULES: Dict[str, List[Scoped]] = {
         _r("EVENT-TABLE"), _r("COST-GUARD", S_USPFS), _r("CANDIDATE-GUARDS", S_USPFS), _r("OUTPUT-FLAG", S_USPFS), _r("SET-ALGEBRA-ARGS"),
         _r("STALE-INPUT", S_USPFS), _r("GAIN-AT-LCA"), _r("TREE-ITER-EXPLICIT", S_USPFS + S_MODEL),
         _r("ENUM-NO-TRUNCATION", S_USPFS),
+        _r("MODEL-TABLE"), _r("LABEL-SIBLINGS"), _r("CONSERVED-SIDE"),
     ],
     "C04": [
         _r("DECODE-GUARD"), _r("DECODE-COMPLETE"), _r("LEAF-ANCHOR"), _r("SENTINEL"), _r("READONLY-DECODE"),
@@ -87,6 +90,7 @@ PROPERTY_RULES: Dict[str, List[Scoped]] = {
         _r("LABEL-GUARD"), _r("RECURSE-FORWARD", S_TREES), _r("ELEMENT-UPDATE"), _r("FIELD-SOURCE"),
         _r("COST-PASSTHROUGH", S_MODEL), _r("GRAPH-KEYS"), _r("SET-ALGEBRA-ARGS"), _r("OUTPUT-FLAG"), _r("KEY-GUARD", S_MODEL + S_COMPUTE),
         _r("TREE-ITER-EXPLICIT"), _r("GAIN-AT-LCA"),
+        _r("LCA-PROPAGATE"), _r("SORT-KEY-ALIGNED"),
     ],
     "C05": [
         _r("POLICY-FLOW"), _r("DECODE-PRODUCT"), _r("RESULT-SCOPE"), _r("PRUNE"), _r("UPDATE-PAIRING"),
@@ -100,6 +104,7 @@ PROPERTY_RULES: Dict[str, List[Scoped]] = {
         _r("ENUM-PLACEMENTS"),
         _r("EVENT-TABLE"), _r("ENUM-NO-TRUNCATION", S_COMPUTE), _r("HASH-IDENTITY", S_COMPUTE + S_MODEL), _r("COST-GUARD"), _r("CANDIDATE-GUARDS"),
         _r("TREE-ITER-EXPLICIT", S_COMPUTE + S_MODEL), _r("HASH-CANONICAL"), _r("UPDATE-ALL-CANDIDATES"),
+        _r("MODEL-TABLE"), _r("LABEL-SIBLINGS"), _r("CONSERVED-SIDE"),
     ],
     "C06": [
         _r("MODEL-TABLE"), _r("LABEL-SIBLINGS"), _r("EVENT-EXHAUSTIVE"), _r("EVENT-TABLE"), _r("CONSERVED-SIDE"),
@@ -128,6 +133,7 @@ PROPERTY_RULES: Dict[str, List[Scoped]] = {
         _r("BINARIZE-GUARD"), _r("NAME-AS-KEY"), _r("ENUM-NO-TRUNCATION", ("utils.trees:binarize", "utils.trees:graft", "utils.trees:arrange_leaves", "model.reconciliation:")),
         _r("COST-PASSTHROUGH", S_MODEL), _r("COPY-FAITHFUL", S_TREES + S_MODEL),
         _r("STALE-INPUT"), _r("TREE-ITER-EXPLICIT", S_COMPUTE + S_MODEL + S_TREES),
+        _r("MAPPING-KEYING"),
     ],
     "C09": [
         _r("MIRROR"), _r("CLASS-DOMAIN"), _r("COST-HOMOGENEOUS"), _r("READONLY-DECODE"),
@@ -136,6 +142,7 @@ PROPERTY_RULES: Dict[str, List[Scoped]] = {
         _r("SORT-KEY-ALIGNED"),
         # a configuration and its mirror image are priced alike iff both are priced as the (orientation-free) model says
         _r("EVENT-SIG"), _r("MODEL-TABLE"), _r("CONSERVED-SIDE"), _r("ITERATOR-REUSE", S_COMPUTE), _r("COST-GUARD"), _r("CANDIDATE-GUARDS"),
+        _r("INFO-KEY"), _r("COMBINE-ORIENT"), _r("GRAPH-KEYS"),
     ],
     "C10": [
         _r("BASE-EXT-SHARE"), _r("EVENT-SIG"), _r("COSTKEYS"), _r("SIBLING-PAIRING"), _r("READONLY-DECODE"),
@@ -144,6 +151,7 @@ PROPERTY_RULES: Dict[str, List[Scoped]] = {
         _r("EVENT-TABLE"), _r("DECODE-CONTENT-FLOW"), _r("COST-GUARD"), _r("CANDIDATE-GUARDS"),
         _r("READONLY-INPUT"),
         _r("MASK-RANGE"), _r("ENUM-NO-TRUNCATION", S_COMPUTE),
+        _r("MODEL-TABLE"), _r("LABEL-SIBLINGS"), _r("CONSERVED-SIDE"),
     ],
     "C11": [
         _r("DICT-KEYS"), _r("FIELDS-SERIALISED"), _r("TREE-WRITE-ARGS"), _r("ENUM-DISJOINT"), _r("MAPPING-KEYING"),
@@ -152,6 +160,7 @@ PROPERTY_RULES: Dict[str, List[Scoped]] = {
         _r("FIELD-SOURCE"),
         _r("KEY-GUARD", S_MODEL), _r("COST-KEY-RESOLUTION"), _r("SORT-KEY-ALIGNED"), _r("COPY-FAITHFUL", S_MODEL),
         _r("TREE-ITER-EXPLICIT", S_MODEL), _r("HASH-CANONICAL"),
+        _r("DERIVED-QUERIES"),
     ],
     "C12": [
         _r("LABEL-GUARD"), _r("REGISTRY-SIGNATURE"), _r("CHOICES-ENUM"),
@@ -160,6 +169,7 @@ PROPERTY_RULES: Dict[str, List[Scoped]] = {
         _r("LABEL-PASS", ("cli.", "compute.")), _r("LAYOUT-SIDES"), _r("LOSS-WALK"), _r("SORT-KEY-ALIGNED"), _r("RESULT-UNCONDITIONAL"),
         _r("TREE-WRITE-ARGS"), _r("KEY-GUARD", S_CLI + S_MODEL), _r("COST-KEY-RESOLUTION"), _r("ANCHOR-SET"), _r("CLI-FLOW-TABLE"), _r("DRAW-ANCHOR-SIDES"),
         _r("FEATURE-COPY"), _r("FINITE-ARITH"), _r("COST-NO-ROUNDING"), _r("TREE-ITER-EXPLICIT", S_CLI + S_MODEL),
+        _r("IDENTITY-KEYS"), _r("EVENT-SIG"), _r("CLASS-DOMAIN"), _r("MIRROR"),
     ],
     "C13": [
         _r("KIND-EXHAUSTIVE"), _r("KIND-AGREE"), _r("ONE-EVENT-NODE"), _r("ONE-ARROW"), _r("LOSS-MARKERS"),
@@ -186,6 +196,7 @@ PROPERTY_RULES: Dict[str, List[Scoped]] = {
         _r("LABEL-SOURCE"),
         _r("WIDTH-VERBATIM"),
         _r("READONLY-INPUT", S_RENDER),
+        _r("WRAP-AFTER-ESCAPE"), _r("DRAW-COLOR-OWN"),
     ],
     "C16": [
         _r("UPDATE-PAIRING"), _r("RETENTION-GUARDS"), _r("POLARITY"), _r("PROXY-NONE"), _r("COMBINE-PRODUCT"),
@@ -194,6 +205,7 @@ PROPERTY_RULES: Dict[str, List[Scoped]] = {
         _r("ENTRY-CTOR"),
         _r("UPDATE-ALL-CANDIDATES"),
         _r("ITERABLE-ONCE", S_DP),
+        _r("PROXY-UPDATE-GATE"),
     ],
     "C17": [
         _r("DERIVED-QUERIES"), _r("EULER-INDEX"), _r("RMQ-WINDOWS"),
@@ -223,6 +235,7 @@ PROPERTY_RULES: Dict[str, List[Scoped]] = {
         _r("TREE-ITER-EXPLICIT", S_TREES),
         _r("ITERABLE-ONCE", S_TREES),
         _r("BINARY-COARSENINGS"),
+        _r("TRIPLES-SOURCE"), _r("CHAINED-ASSIGN-ORDER", ("utils.disjoint_set:", "utils.trees:")),
     ],
 }
 
@@ -664,10 +677,10 @@ _DECIDED_ROUND5 = {
     'C13': ['a species that hosts nothing does not make the layout fail (FINITE-ARITH)'],
     'C14': ['the layout does not write into the solution it draws, so computing it twice gives the same result (READONLY-INPUT on render); virtual loss nodes compare by identity (IDENTITY-KEYS, also for stand-ins created with arguments)'],
     'C15': ['the renderer does not write into the solution (escaping is not applied in place) (READONLY-INPUT on render)'],
-    'C16': ['update examines every candidate it is offered, never a pre-selected or truncated batch (UPDATE-ALL-CANDIDATES)'],
+    'C16': ['update examines every candidate it is offered, never a pre-selected or truncated batch (UPDATE-ALL-CANDIDATES)', 'the proxy forwards a batch whenever any candidate is finite: its gate does not rank the batch with min/max (PROXY-UPDATE-GATE)'],
     'C17': ['no direct iteration / len() of a tree in the ancestry structures (TREE-ITER-EXPLICIT)'],
     'C19': ['vertices are treated as opaque hashable values: never sorted or compared with < (NODE-OPAQUE)'],
-    'C20': ['no direct iteration of a tree (TREE-ITER-EXPLICIT); deep copies of tree nodes use the detaching `.copy()` (COPY-FAITHFUL); a parameter annotated Iterable is walked once or materialised first (ITERABLE-ONCE)', 'abstract execution of DisjointSet.binary on every partition of 1..5 blocks in every listing order of the blocks: exactly the 2**(k-1) - 1 two-block coarsenings, each once (BINARY-COARSENINGS)'],
+    'C20': ['no direct iteration of a tree (TREE-ITER-EXPLICIT); deep copies of tree nodes use the detaching `.copy()` (COPY-FAITHFUL); a parameter annotated Iterable is walked once or materialised first (ITERABLE-ONCE)', 'abstract execution of DisjointSet.binary on every partition of 1..5 blocks in every listing order of the blocks: exactly the 2**(k-1) - 1 two-block coarsenings, each once (BINARY-COARSENINGS)', 'trees_to_triples returns every triple of every tree, not one per cherry (TRIPLES-SOURCE); no chained assignment reads a name it has just rebound (CHAINED-ASSIGN-ORDER)'],
 }
 for _k5, _v5 in _DECIDED_ROUND5.items():
     _DECIDED_ROUND4.setdefault(_k5, [])
